@@ -10,9 +10,19 @@ Not a check module (checks/c06.py owns the Report); this module only delivers
 What is symbolic: the outcome of the i-th remote task call of each worker, o[w][i] in {0 ok, 1 deadline-exceeded
 (exception with .code == 4, what courier_worker.is_timeout looks at), 2 application error (ValueError subclass),
 3 host dies: this call and every later call to the host never answer, its heartbeat stops}; thorough adds
-4 = host dies and rejoins after REJOIN scheduler quanta (in-flight calls stay lost). At most FAULTS non-ok outcomes are
-consumed per run (later calls are ok). Everything else is enumerated by the generator: number of tasks, ignore_failures,
-max_parallelism, per-worker call latency (in scheduler quanta), call_timeout.
+4 = host dies and rejoins after `rejoin` scheduler quanta (in-flight calls stay lost). At most `faults` non-ok outcomes
+are consumed per run (later calls are ok). Everything else is enumerated by the generator: number of tasks,
+ignore_failures, max_parallelism, per-worker call latency (in scheduler quanta), call_timeout, clock tick.
+
+Obligation families (one function per configuration):
+  ob_delivery_*               no result twice / invented; a normal return never misses a result; while one worker never died:
+                              every result exactly once, or - application error and not ignore_failures - that exception
+  ob_no_flip_select_submit_*  (call_timeout > 0, ticking clock) a worker handed out as alive is not declared unreachable by the
+                              submit that follows while another worker never died
+  ob_released_on_return_*     generator returned  -> pool.acquired_workers == []
+  ob_released_on_raise_*      generator raised    -> pool.acquired_workers == []   (refuted on the unchanged tree, see
+                              RAISE_SIGNATURE / run_into(include_raise=False))
+  wit_*                       vacuity witnesses (retry after deadline, after death, application error, everybody dead, ...)
 
 Tracing discipline: the ONLY symbolic values are the outcome ints; they are looked at in `_decide` (traced, forks the
 CrossHair path) and turned into a concrete small int. The library runs on concrete data, therefore with opcode tracing
@@ -177,7 +187,7 @@ class ObservedPool(courier_worker.WorkerPool):
       NET.selected.append((w.address, NET.now - courier_utils.worker_registry().get(w.address)))
     return w
 
-def scenario(sched, n, ign, par, lat, ct, faults, bound, kinds, rejoin, tick):
+def scenario(sched, n, ign, par, lat, ct, faults, bound, kinds, rejoin, tick, flip_apart=True):
   """Runs the real as_completed once. Returns a dict of concrete observations."""
   NET.reset(ADDRS, sched, lat, faults, bound, kinds, rejoin, tick)
   pool = ObservedPool(list(ADDRS), call_timeout=ct, max_parallelism=par, heartbeat_threshold_secs=THRESHOLD)
@@ -222,7 +232,7 @@ def check_delivery(kw, sched):
   with _NoTracing():
     o = _run(kw, sched)
     out, err, exp, failed = o['out'], o['err'], o['exp'], o['failed']
-    if o['flip']: return True     # stated separately: check_no_flip
+    if o['flip'] and kw['flip_apart']: return True     # stated separately: check_no_flip
     # never doubled, never invented - under every schedule
     if len(set(out)) != len(out) or any(v not in exp for v in out): return _say('a result was yielded twice / is not a task result', o)
     want = sorted(set(exp) - set(failed)) if kw['ign'] else exp
@@ -335,6 +345,11 @@ OUTSIDE = [
     'a consumer that abandons the generator early (GeneratorExit): the property speaks about return / raise',
     'thread interleavings between the polling loop and transport callbacks (e.g. Future.set_exception racing a late answer)',
     'pools of more than 2 workers (random.sample(candidates, k) with k > len(candidates) needs >= 3 workers)',
+    'a host that restarts BEFORE its death was noticed (heartbeat threshold) while a call without call_timeout is in flight: '
+    'the lost call is never detected and as_completed polls forever (`python -m checks.c06_seq restart` hits the loop bound); '
+    'with call_timeout=0 hosts only rejoin after 6 quanta (> threshold), with call_timeout=45 also after 2',
+    'hosts whose every answer arrives after call_timeout (latency >= call_timeout): alive but never successful, as_completed '
+    'has no retry budget and retries forever',
 ]
 
 ASSUME = [
@@ -357,21 +372,29 @@ ASSUME = [
 # obligations that state the clause "all workers are released afterwards" on the RAISE path; on the unchanged tree they are
 # expected to be refuted (as_completed has no try/finally) - the owner of checks/c06.py decides fix vs. known finding.
 RAISE_SIGNATURE = 'as_completed-raise-leaves-workers-acquired'
+# thorough tier only (5 configurations, call_timeout=45, ticking clock): a dead-but-still-fresh worker is handed out by
+# next_idle_worker, its heartbeat turns stale before Worker.submit -> wait_until_alive looks again, submit blocks for
+# heartbeat_threshold_secs and raises RuntimeError('Failed to connect to worker ...') out of as_completed although the other
+# worker never died. Time-of-check/time-of-use on the heartbeat age; owner decides.
+FLIP_SIGNATURE = 'as_completed-liveness-flip-between-select-and-submit'
 
 
 def classify(name, call):
   if name.startswith('ob_released_on_raise'):
     return RAISE_SIGNATURE
+  if name.startswith('ob_no_flip_select_submit'):
+    return FLIP_SIGNATURE
   return name
 
 
-def _cfg(n, ign, par, lat, ct, tick=1, rejoin=6):
-  return dict(n=n, ign=ign, par=par, lat=lat, ct=ct, tick=tick, rejoin=rejoin)
+def _cfg(n, ign, par, lat, ct, tick=1, rejoin=6, faults=2):
+  return dict(n=n, ign=ign, par=par, lat=lat, ct=ct, tick=tick, rejoin=rejoin, faults=faults)
 
 
 def _configs(tier):
   """n tasks, ignore_failures, max_parallelism, (latency w0, latency w1) in quanta, call_timeout, seconds per time() call,
-  quanta after which a host that died with outcome 4 rejoins."""
+  quanta after which a host that died with outcome 4 rejoins, number of faults consumed per run.
+  Latencies stay below call_timeout (a host whose every answer arrives after the deadline is not "usable")."""
   if tier == 'quick':
     cfg = []
     for n, par, lat, ct in ((3, 1, (1, 1), 0), (3, 2, (1, 2), 0), (3, 1, (0, 1), 45), (3, 2, (2, 1), 45), (3, 1, (0, 0), 0),
@@ -384,29 +407,36 @@ def _configs(tier):
     # still acquired when a task has to be re-assigned (with <=3 tasks the `release_all(set())` in as_completed - an empty
     # set means ALL workers - has released them before)
     cfg += [_cfg(4, False, 2, (0, 0), 0), _cfg(4, False, 2, (0, 2), 0), _cfg(5, False, 2, (1, 1), 0), _cfg(5, True, 2, (2, 1), 0)]
-    return dict(faults=2, bound=40, kinds=4, k=7, configs=cfg)
+    return dict(bound=40, kinds=4, k=7, configs=cfg)
   cfg = []
-  for n in (1, 2, 3):
+  for n in (1, 2):
     for ign in (False, True):
       for par in (1, 2):
-        for lat in ((0, 0), (1, 1), (1, 2), (2, 1), (0, 2)):
-          cfg.append(_cfg(n, ign, par, lat, 0, rejoin=6))
-          cfg.append(_cfg(n, ign, par, lat, 45, rejoin=6))
-          if n == 3:
-            cfg.append(_cfg(n, ign, par, lat, 45, rejoin=2))
-            cfg.append(_cfg(n, ign, par, lat, 45, tick=0, rejoin=2))
+        for lat in ((0, 0), (1, 2)):
+          for ct in (0, 45):
+            cfg.append(_cfg(n, ign, par, lat, ct, faults=3))
+  for ign in (False, True):
+    for par in (1, 2):
+      for lat in ((0, 0), (1, 1), (1, 2), (2, 1)):
+        for ct in (0, 45):
+          cfg.append(_cfg(3, ign, par, lat, ct, faults=3))
+  for par in (1, 2):
+    for lat in ((1, 1), (1, 2)):
+      cfg.append(_cfg(3, False, par, lat, 45, rejoin=2, faults=3))
+      cfg.append(_cfg(3, False, par, lat, 45, rejoin=2, faults=3, tick=0))
   for n in (4, 5):
-    for lat in ((0, 0), (1, 1), (1, 2), (2, 1), (0, 2)):
+    for lat in ((0, 0), (1, 1), (1, 2), (0, 2)):
       for ign in (False, True):
         cfg.append(_cfg(n, ign, 2, lat, 0))
+    for lat in ((1, 1), (0, 2)):
       cfg.append(_cfg(n, False, 1, lat, 0))
       cfg.append(_cfg(n, False, 2, lat, 45))
-  return dict(faults=3, bound=60, kinds=5, k=8, configs=cfg)
+  return dict(bound=60, kinds=5, k=8, configs=cfg)
 
 
 def bounds(tier):
   p = _configs(tier)
-  return dict(workers=2, tasks='<=5', faults_per_run=p['faults'], outcome_kinds=p['kinds'],
+  return dict(workers=2, tasks='<=5', faults_per_run='per config (2 or 3)', outcome_kinds=p['kinds'],
               symbolic_calls_per_worker=p['k'], loop_bound_quanta=p['bound'], configs=p['configs'],
               note='outcome of the i-th task call of each worker is a symbolic int (0 ok, 1 deadline-exceeded, 2 application '
                    'error, 3 host dies for good, 4 host dies and rejoins after `rejoin` quanta - thorough only); beyond '
@@ -419,12 +449,19 @@ BOUNDS = {'quick': bounds('quick'), 'thorough': bounds('thorough')}
 
 
 def _tag(c):
-  return (f"n{c['n']}_ign{int(c['ign'])}_par{c['par']}_lat{c['lat'][0]}{c['lat'][1]}_ct{c['ct']}_tick{c['tick']}"
+  return (f"n{c['n']}_ign{int(c['ign'])}_par{c['par']}_lat{c['lat'][0]}{c['lat'][1]}_ct{c['ct']}_tick{c['tick']}_f{c['faults']}"
           + (f"_rj{c['rejoin']}" if c['rejoin'] != 6 else ''))
 
 
 def _kw(p, c):
-  return dict(c, faults=p['faults'], bound=p['bound'], kinds=p['kinds'])
+  return dict(c, bound=p['bound'], kinds=p['kinds'], flip_apart=_flip_apart(c))
+
+
+def _flip_apart(c):
+  # the select/submit liveness flip needs (i) a clock that moves between two time() calls and (ii) a dead host whose
+  # call fails (deadline) BEFORE its heartbeat is stale, i.e. call_timeout > 0; only there it is stated as an obligation
+  # of its own (ob_no_flip_select_submit_*), everywhere else a flip simply fails ob_delivery_*.
+  return c['tick'] > 0 and c['ct'] > 0
 
 
 def gen(tier):
@@ -438,7 +475,8 @@ def gen(tier):
   for c in p['configs']:
     kw, t = repr(_kw(p, c)), _tag(c)
     s.append(xh.fn(f'ob_delivery_{t}', params, pre, f'return check_delivery({kw}, {sched})'))
-    s.append(xh.fn(f'ob_no_flip_select_submit_{t}', params, pre, f'return check_no_flip({kw}, {sched})'))
+    if _flip_apart(c):
+      s.append(xh.fn(f'ob_no_flip_select_submit_{t}', params, pre, f'return check_no_flip({kw}, {sched})'))
     s.append(xh.fn(f'ob_released_on_return_{t}', params, pre, f'return check_released({kw}, {sched}, False)'))
     s.append(xh.fn(f'ob_released_on_raise_{t}', params, pre, f'return check_released({kw}, {sched}, True)'))
   # vacuity witnesses on the first configuration with 3 tasks (and the first ignore_failures one)
@@ -451,6 +489,43 @@ def gen(tier):
   for what, c in wits:
     s.append(xh.fn(f'wit_{what}', params, pre, f'return not witness({_kw(p, c)!r}, {sched}, {what!r})'))
   return '\n'.join(s)
+
+
+def resolve(dotted):
+  """dotted name -> object (properties stay property objects so that common.src_ref can unwrap them)."""
+  import importlib, inspect
+  parts = dotted.split('.')
+  for i in range(len(parts), 0, -1):
+    try:
+      obj = importlib.import_module('.'.join(parts[:i]))
+      break
+    except ImportError:
+      continue
+  for part in parts[i:]:
+    obj = inspect.getattr_static(obj, part) if isinstance(obj, type) else getattr(obj, part)
+  return obj
+
+
+def run_into(rep, tier, only=None, include_raise=True):
+  """Adds the task-path obligations to a Report (checks/c06.py owns it). include_raise=False leaves out the
+  ob_released_on_raise_* family (expected to be refuted on the unchanged tree, signature RAISE_SIGNATURE)."""
+  from vf import xh
+  for dotted in ENCODED:
+    rep.encoded(resolve(dotted))
+  rep.bounds(**bounds(tier))
+  rep.outside(*OUTSIDE)
+  rep.assume(*ASSUME)
+  o = os.environ.get('VF_ONLY')
+  def sel(n):
+    if not include_raise and n.startswith('ob_released_on_raise'): return False
+    if only is not None and not only(n): return False
+    return o in n if o else True
+  return xh.run_module(rep, gen(tier), 'c06seq_h', 150 if tier == 'quick' else 1200, classify=classify, only=sel)
+
+
+def replay(data):
+  from vf import xh
+  return xh.replay_file(data)
 
 
 def _load(tier):
@@ -479,7 +554,7 @@ def main(argv=None):
   tier = argv[0] if argv else 'quick'
   if tier == 'restart':
     m = _load('thorough')
-    kw = dict(_cfg(1, False, 1, (1, 1), 0, rejoin=2), faults=1, bound=40, kinds=5)
+    kw = dict(_cfg(1, False, 1, (1, 1), 0, rejoin=2, faults=1), bound=40, kinds=5)
     for d, o in m.enumerate_schedules(kw):
       if 4 in d: print(d, _show(o))
     return 0
@@ -507,7 +582,7 @@ def main(argv=None):
         if o['failed'] and not c['ign']: ok = ok and isinstance(o['err'], m.AppError)
         else: ok = ok and o['err'] is None and sorted(o['out']) == want
       if o['err'] is None and o['acquired']: ok = False
-      if o['flip']:
+      if o['flip'] and kw['flip_apart']:
         flips += 1
         if flips == 1: print('  flip (first)', _tag(c), decisions, _show(o))
       elif not ok:
